@@ -115,6 +115,7 @@ bool ThreadPool::initialize(ssize_t min_thread_num, ssize_t max_thread_num)
         std::lock_guard<std::mutex> lg(d_->lock);
         d_->min_thread_num = min_thread_num;
         d_->max_thread_num = max_thread_num;
+        d_->all_threads_stop_flag = false;  //! 必须在创建工作线程之前、且在锁内复位，否则新线程可能读到上一轮 cleanup() 留下的停止标记
 
         for (ssize_t i = 0; i < min_thread_num; ++i)
             if (!createWorker())
@@ -123,7 +124,6 @@ bool ThreadPool::initialize(ssize_t min_thread_num, ssize_t max_thread_num)
     }
     CPP_TBOX_VERIF_POINT("tp.init.unlocked", 0, 0);
 
-    d_->all_threads_stop_flag = false;
     d_->is_ready = true;
 
     return true;
@@ -265,12 +265,14 @@ void ThreadPool::cleanup()
             }
         );
         d_->threads_cabinet.clear();
+
+        //! 停止标记必须在锁内修改：工作线程是在持锁状态下检查它然后进入等待的，
+        //! 在锁外修改会与该检查产生数据竞争，并可能丢失下面的 notify_all()，导致 join() 永不返回
+        d_->all_threads_stop_flag = true;
         CPP_TBOX_VERIF_POINT("tp.cleanup.collect", thread_vec.size(), d_->all_threads_stop_flag);
     }
     CPP_TBOX_VERIF_POINT("tp.cleanup.unlocked", 0, 0);
 
-    d_->all_threads_stop_flag = true;
-    CPP_TBOX_VERIF_POINT("tp.cleanup.flag", 0, 0);
     d_->cond_var.notify_all();
     CPP_TBOX_VERIF_POINT("tp.cleanup.notified", 0, 0);
 
